@@ -75,23 +75,39 @@ def run(ctx):
             if "clone_with_ttl_decrement" in n:
                 hits.append((bb, tm))
 
-        def m(d):
-            if d[0] == "call" and str(d[1]).endswith("::ge") and len(d[2]) == 2:
-                a, c = norm(d[2][0]), norm(d[2][1])
-                return a[0] == "call" and str(a[1]).endswith("CacheValue::expiry") and c[0] == "param"
-            if d[0] == "call" and str(d[1]).endswith("::le") and len(d[2]) == 2:
-                a, c = norm(d[2][0]), norm(d[2][1])
-                return c[0] == "call" and str(c[1]).endswith("CacheValue::expiry") and a[0] == "param"
-            return False
+        def is_expiry(x):
+            x = norm(x)
+            if x[0] == "call" and str(x[1]).endswith("CacheValue::expiry"):
+                return True
+            # birth + lifetime spelled out
+            return x[0] == "call" and " as std::ops::Add" in str(x[1]) and len(x[2]) == 2 and \
+                {norm(x[2][0])[2] if norm(x[2][0])[0] == "field" else None, norm(x[2][1])[2] if norm(x[2][1])[0] == "field" else None} == {"birth", "lifetime"}
+
+        def polarity(d):
+            """+1: the hit is the true edge, -1: the hit is the false edge, 0: not the expiry test.
+            expiry >= now, now <= expiry (hit when true); expiry < now, now > expiry (hit when false)"""
+            if d[0] != "call" or len(d[2]) != 2:
+                return 0
+            op = str(d[1]).rsplit("::", 1)[-1]
+            x, y = norm(d[2][0]), norm(d[2][1])
+            if op == "ge" and is_expiry(x) and y[0] == "param":
+                return 1
+            if op == "le" and is_expiry(y) and x[0] == "param":
+                return 1
+            if op == "lt" and is_expiry(x) and y[0] == "param":
+                return -1
+            if op == "gt" and is_expiry(y) and x[0] == "param":
+                return -1
+            return 0
         te_all = []
-        for sbb, d, te, fe in bool_switches(P, b, m):
-            te_all.extend(te)
+        for sbb, d, te, fe in bool_switches(P, b, lambda d: polarity(d) != 0):
+            te_all.extend(te if polarity(d) > 0 else fe)
         for bb, tm in hits:
             ctx.check(edge_dominated(cfg, te_all, bb), "R2", "hit-only-while-expiry>=now", ctx.where(b, tm["sp"]),
                       "a cached reply may be produced only on the true edge of entry.expiry() >= now (%d such edge(s))" % len(te_all))
             a = norm(T.call_args(bb)[1])
-            good = a[0] == "call" and " as std::ops::Sub" in str(a[1]) and norm(a[2][0])[0] == "param" and \
-                norm(a[2][1])[0] == "field" and norm(a[2][1])[2] == "birth"
+            good = a[0] == "call" and (" as std::ops::Sub" in str(a[1]) or str(a[1]).rsplit("::", 1)[-1] in ("duration_since", "saturating_duration_since")) and \
+                len(a[2]) == 2 and norm(a[2][0])[0] == "param" and norm(a[2][1])[0] == "field" and norm(a[2][1])[2] == "birth"
             ctx.check(good, "R2", "decrement=now-birth", ctx.where(b, tm["sp"]), "the TTL decrement must be now - entry.birth (is %s)" % show(a)[:100])
             # same entry for the test and for the copy
             r = norm(T.call_args(bb)[0])
